@@ -151,6 +151,15 @@ def main(tier: str) -> int:
         opt = rec.opt
         pdp = cn.startswith("PDP")
         names = {"selection": sorted(opt._selection_set), "crossover": sorted(opt._crossover_set), "mutation": sorted(opt._mutation_set)}
+        # ... which must be exactly the names that were CONFIGURED (where the run configures them)
+        wrong_names = False
+        for kind, key in (("selection", "selections"), ("crossover", "crossovers"), ("mutation", "mutations")):
+            if key in cfg and sorted(cfg[key]) != names[kind]:
+                chk.fail("the operator distribution is not over exactly the configured operator names",
+                         {"run": d, "kind": kind, "configured": sorted(cfg[key]), "used_by_the_optimizer": names[kind]}, {"optimizer": cn, "clause": "names"})
+                wrong_names = True
+        if wrong_names:
+            continue
         st = opt.get_stats()
         gens = len(rec.snaps)
 
